@@ -103,6 +103,7 @@ func init() {
 		assumptions: []string{"element values are the row-major positions (the operations are value-parametric), compared exactly"},
 	}))
 	register("C02", "exploration", symCheck(symSpec{
+		bigFam: "c02",
 		module: "Gen_C02", partsQ: 8, partsT: 16, assignQ: 8, assignT: 20, timeoutT: 60 * time.Minute,
 		rule:        "one case per (operation, operand shapes, argument, subset of tracked operands) for the 33 differentiable operations other than Broadcast: y = op(operands), z = y*g with an untracked weighting g, BackPropagate(z); expected gradients are d(sum z)/d(operand) by symbolic differentiation of the operation's definition (no backward rule in the spec); quick grid: Shapes(2,2)+5 shapes up to rank 5 (element-wise ops on 4 shapes), all dims, Slice/Patch index forms (full product to rank 2), Concat 2-3 operands; thorough: Shapes(3,3) U Shapes(5,2); values restricted to each operation's differentiability domain (no max/min ties, x>0 for Log and fractional powers, base 0 included for exponents 0,1,2); distinct = distinct (op, shapes, argument, tracked subset); non-trivial = more than one element",
 		assumptions: []string{"an arbitrary upstream weighting is realised as BackPropagate(y.Mul(g)) with g untracked"},
